@@ -22,38 +22,45 @@ EXTENDS Naturals, TLC
 
 CONSTANTS MaxBytes,          \* bound on bytes written per direction
           Cuts,              \* subset of {"origin", "transit"}: where the active path may be cut (alternative exists)
-          OriginErrorFatal   \* TRUE: a send attempt in the origin's re-route window aborts the connection
+          OriginErrorFatal,  \* TRUE: a send attempt in the origin's re-route window aborts the connection
+          MaxNotices,        \* bound on unreachable notices about this connection's addresses
+          NoticeEndsStream   \* FALSE = the code as it is: only 'service unknown' (the peer's socket is gone for good) may end
+                             \* the stream; TRUE = documented counter-example: a transient notice ('message expired',
+                             \* 'blocked by firewall') closes the writing side under the application's feet
 
 Dirs == {"ab", "ba"}
 
-VARIABLES written, avail, read, wClosed, finAvail, rEOF, rErr, conn, path, cutsLeft
+VARIABLES written, avail, read, wClosed, finAvail, rEOF, rErr, conn, path, cutsLeft,
+          appClosed,   \* appClosed[d]: the APPLICATION writing direction d has called Close (wClosed[d]: the stream's writing side is closed)
+          notices      \* number of non-fatal notices received so far
 
-vars == <<written, avail, read, wClosed, finAvail, rEOF, rErr, conn, path, cutsLeft>>
+vars == <<written, avail, read, wClosed, finAvail, rEOF, rErr, conn, path, cutsLeft, appClosed, notices>>
 
 Init ==
   /\ written = [d \in Dirs |-> 0] /\ avail = [d \in Dirs |-> 0] /\ read = [d \in Dirs |-> 0]
   /\ wClosed = [d \in Dirs |-> FALSE] /\ finAvail = [d \in Dirs |-> FALSE]
   /\ rEOF = [d \in Dirs |-> FALSE] /\ rErr = [d \in Dirs |-> FALSE]
   /\ conn = "up" /\ path = "ok" /\ cutsLeft = Cuts
+  /\ appClosed = [d \in Dirs |-> FALSE] /\ notices = 0
 
 \* Conn.Write(k bytes)
 Write(d, k) ==
   /\ conn = "up" /\ ~wClosed[d] /\ written[d] + k <= MaxBytes
   /\ written' = [written EXCEPT ![d] = @ + k]
-  /\ UNCHANGED <<avail, read, wClosed, finAvail, rEOF, rErr, conn, path, cutsLeft>>
+  /\ UNCHANGED <<avail, read, wClosed, finAvail, rEOF, rErr, conn, path, cutsLeft, appClosed, notices>>
 
 \* Conn.Close(): half close of the writing side (FIN after all data)
 CloseWrite(d) ==
   /\ conn = "up" /\ ~wClosed[d]
-  /\ wClosed' = [wClosed EXCEPT ![d] = TRUE]
-  /\ UNCHANGED <<written, avail, read, finAvail, rEOF, rErr, conn, path, cutsLeft>>
+  /\ wClosed' = [wClosed EXCEPT ![d] = TRUE] /\ appClosed' = [appClosed EXCEPT ![d] = TRUE]
+  /\ UNCHANGED <<written, avail, read, finAvail, rEOF, rErr, conn, path, cutsLeft, notices>>
 
 \* the datagram layer makes progress (ASSUMPTION): more bytes, then the FIN, become available in order
 Transmit(d) ==
   /\ conn = "up" /\ path = "ok"
   /\ \/ \E n \in (avail[d] + 1)..written[d] : avail' = [avail EXCEPT ![d] = n] /\ UNCHANGED finAvail
      \/ wClosed[d] /\ avail[d] = written[d] /\ ~finAvail[d] /\ finAvail' = [finAvail EXCEPT ![d] = TRUE] /\ UNCHANGED avail
-  /\ UNCHANGED <<written, read, wClosed, rEOF, rErr, conn, path, cutsLeft>>
+  /\ UNCHANGED <<written, read, wClosed, rEOF, rErr, conn, path, cutsLeft, appClosed, notices>>
 
 \* datagrams lost, duplicated or re-ordered in transit: nothing changes at this level (QUIC repairs)
 Lost == conn = "up" /\ UNCHANGED vars
@@ -63,46 +70,60 @@ Cut(where) ==
   /\ conn = "up" /\ path = "ok" /\ where \in cutsLeft
   /\ cutsLeft' = cutsLeft \ {where}
   /\ path' = IF where = "origin" THEN "origin_window" ELSE "transit_window"
-  /\ UNCHANGED <<written, avail, read, wClosed, finAvail, rEOF, rErr, conn>>
+  /\ UNCHANGED <<written, avail, read, wClosed, finAvail, rEOF, rErr, conn, appClosed, notices>>
 
 \* a send attempt (data, ack or keep-alive) during the origin's window gets a synchronous error
 SendError ==
   /\ conn = "up" /\ path = "origin_window" /\ OriginErrorFatal
   /\ conn' = "aborted"
-  /\ UNCHANGED <<written, avail, read, wClosed, finAvail, rEOF, rErr, path, cutsLeft>>
+  /\ UNCHANGED <<written, avail, read, wClosed, finAvail, rEOF, rErr, path, cutsLeft, appClosed, notices>>
 
 \* routing has converged on the alternative path
 Rerouted ==
   /\ path \in {"origin_window", "transit_window"} /\ path' = "ok"
-  /\ UNCHANGED <<written, avail, read, wClosed, finAvail, rEOF, rErr, conn, cutsLeft>>
+  /\ UNCHANGED <<written, avail, read, wClosed, finAvail, rEOF, rErr, conn, cutsLeft, appClosed, notices>>
+
+\* Environment: an unreachable notice about this connection's own addresses arrives at the node writing direction d
+\* (monitorUnreachable sees it).  'message expired' (a datagram used up its hop budget in a momentary forwarding
+\* loop while a route change propagates) and 'blocked by firewall' are transient: they must NOT end the stream.
+\* ('service unknown' means the peer's socket is gone for good; it may end the stream and is not produced while
+\* both applications are alive, so it is not an action here.)
+Notice(d) ==
+  /\ conn = "up" /\ notices < MaxNotices
+  /\ notices' = notices + 1
+  /\ wClosed' = IF NoticeEndsStream THEN [wClosed EXCEPT ![d] = TRUE] ELSE wClosed
+  /\ UNCHANGED <<written, avail, read, finAvail, rEOF, rErr, conn, path, cutsLeft, appClosed>>
 
 \* Conn.Read returning k > 0 bytes
 Read(d, k) ==
   /\ ~rEOF[d] /\ ~rErr[d] /\ k > 0 /\ read[d] + k <= avail[d]
   /\ read' = [read EXCEPT ![d] = @ + k]
-  /\ UNCHANGED <<written, avail, wClosed, finAvail, rEOF, rErr, conn, path, cutsLeft>>
+  /\ UNCHANGED <<written, avail, wClosed, finAvail, rEOF, rErr, conn, path, cutsLeft, appClosed, notices>>
 
 \* Conn.Read returning io.EOF
 EOF(d) ==
   /\ ~rEOF[d] /\ ~rErr[d] /\ finAvail[d] /\ read[d] = avail[d]
   /\ rEOF' = [rEOF EXCEPT ![d] = TRUE]
-  /\ UNCHANGED <<written, avail, read, wClosed, finAvail, rErr, conn, path, cutsLeft>>
+  /\ UNCHANGED <<written, avail, read, wClosed, finAvail, rErr, conn, path, cutsLeft, appClosed, notices>>
 
 \* Conn.Read returning an error other than EOF (connection aborted)
 ReadError(d) ==
   /\ conn = "aborted" /\ ~rEOF[d] /\ ~rErr[d]
   /\ rErr' = [rErr EXCEPT ![d] = TRUE]
-  /\ UNCHANGED <<written, avail, read, wClosed, finAvail, rEOF, conn, path, cutsLeft>>
+  /\ UNCHANGED <<written, avail, read, wClosed, finAvail, rEOF, conn, path, cutsLeft, appClosed, notices>>
 
 Progress == (\E d \in Dirs : Transmit(d) \/ EOF(d) \/ ReadError(d) \/ (\E k \in 1..MaxBytes : Read(d, k))) \/ Rerouted
-Next == \/ \E d \in Dirs : (\E k \in 1..MaxBytes : Write(d, k) \/ Read(d, k)) \/ CloseWrite(d) \/ Transmit(d) \/ EOF(d) \/ ReadError(d)
+Next == \/ \E d \in Dirs : (\E k \in 1..MaxBytes : Write(d, k) \/ Read(d, k)) \/ CloseWrite(d) \/ Transmit(d) \/ EOF(d) \/ ReadError(d) \/ Notice(d)
         \/ (\E w \in {"origin", "transit"} : Cut(w)) \/ SendError \/ Rerouted \/ Lost
 
 Spec == Init /\ [][Next]_vars /\ WF_vars(Progress)
 
 -----------------------------------------------------------------------------
 Prefix == \A d \in Dirs : read[d] <= avail[d] /\ avail[d] <= written[d]
-EOFOnlyAfterAll == \A d \in Dirs : rEOF[d] => (wClosed[d] /\ read[d] = written[d])
+\* end of stream is seen only after the writing APPLICATION closed and everything it wrote was read
+EOFOnlyAfterAll == \A d \in Dirs : rEOF[d] => (appClosed[d] /\ wClosed[d] /\ read[d] = written[d])
+\* the library never closes a writing side on its own while the connection is up
+NoSpontaneousClose == \A d \in Dirs : (wClosed[d] /\ conn = "up") => appClosed[d]
 \* the property's promise "as long as the nodes stay mutually reachable": no abort, everything arrives
 NoAbort == conn = "up"
 Complete == \A d \in Dirs : (wClosed[d] /\ conn = "up") ~> (rEOF[d] \/ conn = "aborted")
@@ -110,4 +131,5 @@ AllDelivered == \A d \in Dirs : wClosed[d] ~> rEOF[d]
 
 W_NoEOF == ~(\E d \in Dirs : rEOF[d] /\ written[d] = MaxBytes)
 W_NoAbort == conn = "up"
+W_NoNotice == notices = 0
 =============================================================================
